@@ -74,8 +74,8 @@ def classification : List (Site × Verdict) := [
   (("compiler/util.go", "upgradeValue", 1), .covered ``perm_invariant_rebuild ("object fields; " ++ insertOnly)),
   (("interpreter/module.go", "Interpreter.execModule", 0), .covered ``perm_invariant_rebuild ("scope additions → root scope; " ++ insertOnly)),
   (("interpreter/util.go", "Interpreter.callFunc", 0), .covered ``perm_invariant_rebuild ("evaluated arguments (a map built from the ordered argument list) → new scope; " ++ insertOnly)),
-  (("interpreter/value/cast.go", "deepCastRecursive", 0), .covered ``perm_invariant_sortByKey ("after the fix for V33: " ++ sortedFirst ++ " (before: the first failing field in map order was reported)")),
-  (("interpreter/value/cast.go", "DeepCast", 0), .covered ``perm_invariant_sortByKey ("after the fix for V33: " ++ sortedFirst ++ " (before: the first failing field in map order was reported)")),
+  (("interpreter/value/cast.go", "deepCastRecursive", 0), .covered ``perm_invariant_sortByKey ("after the fix for V35: " ++ sortedFirst ++ " (before: the first failing field in map order was reported)")),
+  (("interpreter/value/cast.go", "DeepCast", 0), .covered ``perm_invariant_sortByKey ("after the fix for V35: " ++ sortedFirst ++ " (before: the first failing field in map order was reported)")),
   (("interpreter/value/json.go", "marshalValue", 0), .covered ``perm_invariant_rebuild ("any-object fields → map for encoding/json (which sorts keys); " ++ insertOnly)),
   (("interpreter/value/json.go", "marshalValue", 1), .covered ``perm_invariant_rebuild ("object fields → map for encoding/json; " ++ insertOnly)),
   (("interpreter/value/json.go", "unmarshalValue", 0), .covered ``perm_invariant_rebuild ("decoded JSON object → fields; the error return is unreachable for values produced by encoding/json; " ++ insertOnly)),
@@ -89,7 +89,7 @@ def classification : List (Site × Verdict) := [
   (("optimizer/optimizer.go", "Optimizer.Optimize", 0), .covered ``perm_invariant_rebuild ("modules are optimised one by one; " ++ insertOnly ++ "; " ++ warnings)),
   (("runtime/core.go", "Core.Run", 0), .unobservable "inside `if vmVerbose != VMNotVerbose` with `const vmVerbose = VMNotVerbose`: dead code in every build"),
   (("runtime/execute.go", "Core.runInstruction", 0), .unobservable "dump of all globals appended (after the first line) to the message of an internal abort — a host panic of the VM, judged by C02; nothing else reads it"),
-  (("runtime/value/cast.go", "deepCastRecursive", 0), .covered ``perm_invariant_sortByKey ("after the fix for V33: " ++ sortedFirst ++ " (before: the first failing field in map order was reported)")),
+  (("runtime/value/cast.go", "deepCastRecursive", 0), .covered ``perm_invariant_sortByKey ("after the fix for V35: " ++ sortedFirst ++ " (before: the first failing field in map order was reported)")),
   (("runtime/value/json.go", "MarshalValue", 0), .covered ``perm_invariant_rebuild ("any-object fields → map for encoding/json (which sorts keys); " ++ insertOnly)),
   (("runtime/value/json.go", "MarshalValue", 1), .covered ``perm_invariant_rebuild ("object fields → map for encoding/json; " ++ insertOnly)),
   (("runtime/value/json.go", "UnmarshalValue", 0), .covered ``perm_invariant_rebuild ("decoded JSON object → fields; the error return is unreachable for values produced by encoding/json; " ++ insertOnly)),
